@@ -31,17 +31,15 @@ fn labels(n: &Node) -> String {
 }
 
 /// first differing node in pre-order
-fn diff_sig(ha: &Heap, a: &Node, hb: &Heap, b: &Node) -> Option<String> {
+fn diff_sig(ha: &Heap, a: &Node, hb: &Heap, b: &Node, regrouped: &mut Option<String>) -> Option<String> {
   if labels(a) != labels(b) {
     // the one regrouping the repository's own tests pin: `x op (y op z)` -> `(x op y) op z`
-    if a.label.starts_with("Binary(")
-      && a.label == b.label
-      && a.children.len() == 2
-      && b.children.len() == 2
-      && a.children[1].label == a.label
-      && b.children[0].label == a.label
-    {
-      return Some(format!("regroup-same-operator:{}", a.label));
+    // (and only that one: modulo regrouping of chains of one associative operator the trees must
+    // be identical)
+    if a.label.starts_with("Binary(") && a.label == b.label && canon(ha, a) == canon(hb, b) {
+      // keep looking: a real difference elsewhere in the tree takes precedence over this one
+      regrouped.get_or_insert_with(|| format!("regroup-same-operator:{}", a.label));
+      return None;
     }
     return Some(format!("in:{} out:{}", labels(a), labels(b)));
   }
@@ -53,11 +51,76 @@ fn diff_sig(ha: &Heap, a: &Node, hb: &Heap, b: &Node) -> Option<String> {
     _ => {}
   }
   for (x, y) in a.children.iter().zip(&b.children) {
-    if let Some(s) = diff_sig(ha, x, hb, y) {
+    if let Some(s) = diff_sig(ha, x, hb, y, regrouped) {
       return Some(s);
     }
   }
   None
+}
+
+const ASSOCIATIVE: [&str; 5] = ["Binary(*)", "Binary(+)", "Binary(::)", "Binary(&&)", "Binary(||)"];
+
+fn flatten_chain<'a>(n: &'a Node, op: &str, out: &mut Vec<&'a Node>) {
+  if n.label == op && n.children.len() == 2 {
+    flatten_chain(&n.children[0], op, out);
+    flatten_chain(&n.children[1], op, out);
+  } else {
+    out.push(n);
+  }
+}
+
+/// Structural dump in which a chain of one associative operator is a flat operand list.
+fn canon(h: &Heap, n: &Node) -> String {
+  let name = n.name.map(|x| x.as_str(h).to_string()).unwrap_or_default();
+  if ASSOCIATIVE.contains(&n.label.as_str()) && n.children.len() == 2 {
+    let mut ops = vec![];
+    flatten_chain(n, &n.label, &mut ops);
+    return format!("chain {}[{}]", n.label, ops.iter().map(|c| canon(h, c)).collect::<Vec<_>>().join(","));
+  }
+  format!("{}'{}'[{}]", n.label, name, n.children.iter().map(|c| canon(h, c)).collect::<Vec<_>>().join(","))
+}
+
+/// All binary operator trees with exactly `k` operators over `ops`, leaves named in order,
+/// every operand that is itself an operator tree parenthesised.
+fn operator_trees(k: usize, ops: &[&str], next_leaf: &mut usize, memo_leaf: bool) -> Vec<String> {
+  let _ = memo_leaf;
+  fn shapes(k: usize, ops: &[&str]) -> Vec<String> {
+    if k == 0 {
+      return vec!["@".to_string()];
+    }
+    let mut out = vec![];
+    for left in 0..k {
+      let ls = shapes(left, ops);
+      let rs = shapes(k - 1 - left, ops);
+      for l in &ls {
+        for r in &rs {
+          for op in ops {
+            let lw = if l == "@" { l.clone() } else { format!("({l})") };
+            let rw = if r == "@" { r.clone() } else { format!("({r})") };
+            out.push(format!("{lw} {op} {rw}"));
+          }
+        }
+      }
+    }
+    out
+  }
+  let _ = next_leaf;
+  shapes(k, ops)
+    .into_iter()
+    .map(|s| {
+      let mut i = 0;
+      let mut t = String::new();
+      for c in s.chars() {
+        if c == '@' {
+          t.push((b'a' + i as u8) as char);
+          i += 1;
+        } else {
+          t.push(c);
+        }
+      }
+      t
+    })
+    .collect()
 }
 
 fn check_text(text: &str, width: usize) -> Res {
@@ -106,17 +169,19 @@ fn check_text(text: &str, width: usize) -> Res {
     if d1 != d2 {
       // locate
       let mut sig = None;
+      let mut regrouped = None;
       if m1.toplevels.len() != m2.toplevels.len() {
         sig = Some("toplevel count differs".to_string());
       } else {
         for (a, b) in m1.toplevels.iter().zip(&m2.toplevels) {
           let (na, nb) = (synt::toplevel_node(a), synt::toplevel_node(b));
-          if let Some(s) = diff_sig(&heap, &na, &heap2, &nb) {
+          if let Some(s) = diff_sig(&heap, &na, &heap2, &nb, &mut regrouped) {
             sig = Some(s);
             break;
           }
         }
       }
+      let sig = sig.or(regrouped);
       let sig = sig.unwrap_or_else(|| "imports differ".to_string());
       return Res::Violation(
         format!("tree-changed:{sig}"),
@@ -193,6 +258,33 @@ fn main() {
     }
     prev = cur;
   }
+  // operator trees: every fully parenthesised binary tree with k operators
+  const ALL_OPS: [&str; 14] = ["*", "/", "%", "+", "-", "::", "<", "<=", ">", ">=", "==", "!=", "&&", "||"];
+  const LEVELS: [&[&str]; 4] = [&["*", "/", "%"], &["+", "-", "::"], &["<", "<=", ">", ">=", "==", "!="], &["&&", "||"]];
+  let mut n_op_trees = 0u64;
+  let full_k = if run.quick() { 3 } else { 4 };
+  for k in 1..=full_k {
+    for t in operator_trees(k, &ALL_OPS, &mut 0, false) {
+      cases.push((exprgen::wrap_in_module(&t), 100, format!("operator tree k={k}: {t}")));
+      n_op_trees += 1;
+    }
+  }
+  // one more operator within each precedence level (where regrouping bugs live), plus mixed pairs
+  for lv in LEVELS {
+    for t in operator_trees(full_k + 1, lv, &mut 0, false) {
+      cases.push((exprgen::wrap_in_module(&t), 100, format!("operator tree k={} same-level: {t}", full_k + 1)));
+      n_op_trees += 1;
+    }
+  }
+  if !run.quick() {
+    for lv in [&["*", "/", "%"][..], &["+", "-", "::"][..], &["&&", "||"][..]] {
+      for t in operator_trees(6, &lv[..2], &mut 0, false) {
+        cases.push((exprgen::wrap_in_module(&t), 100, format!("operator tree k=6 two-operator: {t}")));
+        n_op_trees += 1;
+      }
+    }
+  }
+  space.insert("operator_trees".into(), json!(n_op_trees));
   // literal classes, in expression position and as operands of each operator class
   let mut n_lit = 0;
   for lit in LITERALS {
@@ -257,7 +349,7 @@ fn main() {
     json!({
       "evaluations": evaluated,
       "distinct_nontrivial": n_distinct,
-      "rule": "cases = template-filled expressions of depth<=bound (each child bare and parenthesised) + literal classes x operand contexts + declaration forms x widths + every corpus file x widths; a case counts when the input parses without syntax error; distinct = distinct structural dumps of the input AST",
+      "rule": "cases = template-filled expressions of depth<=bound (each child bare and parenthesised) + all fully parenthesised binary operator trees (k operators over all 14 operators; k+1 within each precedence level) + literal classes x operand contexts + declaration forms x widths + every corpus file x widths; a case counts when the input parses without syntax error; distinct = distinct structural dumps of the input AST",
       "samples": samples,
       "generated_cases": cases.len(),
       "skipped_input_has_syntax_error": skipped,
